@@ -971,10 +971,11 @@ class Path:
                 if not isinstance(c, bool) and not isinstance(c, Unknown):
                     # a test that the path condition decides is as good as a concrete one (complete unrolling)
                     ct = zbool(c)
-                    if self.proves(ct):
-                        c = True
-                    elif self.proves(z3.Not(ct)):
-                        c = False
+                    p_true, p_false = self.proves(ct), self.proves(z3.Not(ct))
+                    if p_true and p_false:
+                        raise Infeasible()  # contradictory path condition (everything is entailed): not a path
+                    if p_true or p_false:
+                        c = p_true
                 if not isinstance(c, bool):
                     raise Unsupported(f'loop without invariant at {self.cur_loc}')
                 if not c:
